@@ -59,10 +59,10 @@ def main() -> int:
     suffix = "" if ck.quick else "_thorough"
     # M
     if not replay:
-        ck.model_check("MC_Lexers", "MC_Lexers.cfg", "lexer machines (all special units, bounded depth): totality, mode discipline, error absorbing, skeleton lemmas", workers=8, jvm=JVM, timeout=900)
+        ck.model_check("MC_Lexers", "MC_Lexers.cfg", "lexer machines (all special units, bounded depth): totality, mode discipline, error absorbing, skeleton lemmas", workers=4, jvm=JVM, timeout=900)
         if not ck.quick:
-            ck.model_check("MC_Lexers", "MC_Lexers_deep.cfg", "lexer machines (literal and escape units, unbounded depth)", workers=8, jvm=JVM, timeout=900)
-        ck.model_check("MC_LexCanon", "MC_LexCanon.cfg", "Decode(kind, Canon(kind, s)) = Expected(kind, s)", workers=8, jvm=JVM, timeout=600)
+            ck.model_check("MC_Lexers", "MC_Lexers_deep.cfg", "lexer machines (literal and escape units, unbounded depth)", workers=4, jvm=JVM, timeout=900)
+        ck.model_check("MC_LexCanon", "MC_LexCanon.cfg", "Decode(kind, Canon(kind, s)) = Expected(kind, s)", workers=4, jvm=JVM, timeout=600)
     # G
     cases_p = ck.work / "cases.json"
     if replay:
@@ -89,7 +89,7 @@ def main() -> int:
         part = obs[off : off + chunk]
         pp = ck.work / "obs_part.json"
         core.write_json(pp, part)
-        res = ck.tlc("LexTrace", what="V: emitted literals decode to the originals", env={"VERIF_OBS": str(pp)}, cont=True, workers=8, jvm=JVM, timeout=900)
+        res = ck.tlc("LexTrace", what="V: emitted literals decode to the originals", env={"VERIF_OBS": str(pp)}, cont=True, workers=4, jvm=JVM, timeout=900)
         for line in res.printed:
             m = re.search(r"counts\", (\d+), (\d+), (\d+)", line)
             if m:
